@@ -348,7 +348,7 @@ pub fn fam3(l: L) -> Vec<char> {
 /// F4: an expanding / folding accent of the language with the letters it folds to.
 pub fn fam4(l: L) -> Vec<char> {
     match l {
-        L::De => vec!['ß', 's', 'a', ' '],
+        L::De => vec!['ß', 'ẞ', 's', 'a', ' '],
         L::Fr => vec!['œ', 'o', 'e', ' '],
         L::Es => vec!['ñ', 'n', 'a', ' '],
         L::Pt => vec!['ã', 'a', 'c', ' '],
